@@ -187,7 +187,12 @@ func (fv *FuncVC) run() {
 		fv.assume(fv.TE.rangeFact(t, fvv.Type()))
 	}
 	for _, g := range fc.Ghost {
-		t := fv.declare("gh."+mangle(g.Name), fv.sortOfTypeString(g.Type))
+		gt, gs := fv.resolveType(g.Type)
+		t := fv.declare("gh."+mangle(g.Name), gs)
+		t.T = gt
+		if gt != nil {
+			fv.paramTy[g.Name] = gt
+		}
 		fv.ghostParams[g.Name] = t
 		fv.params[g.Name] = t
 	}
